@@ -7,6 +7,7 @@
 mod circ;
 mod coordsbind;
 mod gates;
+mod htc;
 mod loworder;
 mod run;
 
